@@ -10,6 +10,12 @@ CHECKS = {
         "every (state, call) transition of that model is replayed through the real public API with all results and the full observable projection compared, and independently "
         "generated random histories recorded from the real code are validated against the same specification by TLC. Level: model checking bound to the code by conformance in both directions.",
    note="Trusted: TLC/SANY/Json module, Go toolchain, the harness' token<->value mapping. Bounds: <=3 (quick) / 4 (thorough) scopes and 4 names in the exhaustive part; random traces use 8 scopes, 8 names, length 60-80. Error message texts and String() output are not compared."),
+ "C13": dict(level="model_checking", design="5 (C13), 3.6, 4.2",
+   technique="TLC model checking of spec/AnkoEnvConc.tla (lock-granular, linearizability vs AnkoEnv) + exhaustive schedule DFS of the real env package under a gate scheduler (mutex swapped by go build -overlay) with TLC validating every observed outcome + race detector runs",
+   text="All interleavings at lock-acquisition granularity of 2-3 goroutines are explored twice: in the TLA+ model (TLC, with linearizability against the sequential specification, lock discipline and deadlock freedom) "
+        "and on the real code (every schedule of every program tuple executed under a deterministic gate; each distinct outcome validated by TLC against the sequential specification; stuck schedules are deadlocks). "
+        "Memory-level races are delegated to the race detector on real-scheduler runs whose outcomes are validated the same way.",
+   note="Trusted: Go RWMutex semantics as documented; the overlay rewrite intercepts every sync.RWMutex/Mutex field of package env. Bounds: 2x2 calls over 9 call instances x 2 initial tables exhaustive (quick); 3x1 exhaustive, 2x3 and 3x2 sampled (thorough). Read-only parent as the property states."),
 }
 
 NOT_YET = "check not built yet in this round (planned in DESIGN.md section 5); not claimed until its machinery is sound"
